@@ -128,8 +128,11 @@ def icpdag_rules(rep, prog):
         comps = [x for x in walk(nx) if isinstance(x, tuple) and x[0] == "comp"]
         elts = {(c[2], c[3][0][1]) for c in comps}
         want = {(("tuple", (i, ("elem", ch_))), ch_), (("tuple", (("elem", pa_), i)), pa_)}
-        ok = elts == want
+        conditional = [x for x in walk(nx) if isinstance(x, tuple) and x and x[0] == "phi"]
+        ok = elts == want and not conditional
         why = "pairs %s" % sorted((fmt(a), fmt(b)) for a, b in elts)
+        if elts == want and conditional:
+            why = "the child / parent edges of a target are only collected under `%s`: an intervention orients *every* edge at its target" % fmt(conditional[0][1])[:80]
     rep.check("ORIENT.edges", ok, fwhere(f, first["node"]), "edges to fix at target i: (i, c) for c in ch(i, G) and (q, i) for q in pa(i, G) - (from, to) pairs as in G",
               "the edges fixed at the targets are not (i, child) / (parent, i) of G: " + why)
     st = [s for s in S.select("store", qname=q)]
